@@ -231,9 +231,9 @@ func (r *Record) AddAttributes(attrs ...log.KeyValue) {
 			// New attrs overwrite any existing with the same key.
 			r.addDropped(1)
 			if idx < 0 {
-				r.front[-(idx + 1)] = a
+				r.front[-(idx + 1)] = r.applyAttrLimits(a)
 			} else {
-				r.back[idx] = a
+				r.back[idx] = r.applyAttrLimits(a)
 			}
 		} else {
 			// Unique attribute.
